@@ -41,12 +41,28 @@ def _norm(outcome):
     return outcome
 
 
+def _with_error_clause(src):
+    """In a quarter of the programs one propositional predicate that has clauses gets one more clause, before or after
+    one of them, whose body raises a grounding error (`X is 1/0`): "the same errors" in every exploration order."""
+    rng = random.Random(len(src) * 13 + 5)
+    if rng.random() > 0.25:
+        return src
+    lines = src.splitlines()
+    idx = [i for i, l in enumerate(lines) if ":-" in l and "(" not in l.split(":-")[0] and "::" not in l.split(":-")[0]
+           and l.split(":-")[0].strip().isidentifier()]
+    if not idx:
+        return src
+    i = rng.choice(idx)
+    lines.insert(i + rng.randrange(2), "%s :- X is 1/0." % lines[i].split(":-")[0].strip())
+    return "\n".join(lines) + "\n"
+
+
 # ---------------------------------------------------------------- relations (module level: run in worker processes)
 def rel_c03(prog):
     """Seeded permutation of every batch of sibling 'e' messages of the default (buffered) engine."""
     from problog.engine_stack import MessageFIFO
     from problog.engine import DefaultEngine
-    src = progs.render(prog)
+    src = _with_error_clause(progs.render(prog))
     base = _eval(src, engine=DefaultEngine())
     out = dict(src=src, base=base, variants=[])
     for k in range(4):
@@ -302,9 +318,10 @@ DESCR = {
 
 
 def run(pid, tier, seed):
-    n = 3000 if tier == "thorough" else 300
+    n = 3000 if tier == "thorough" else (800 if pid in ("C03", "C04") else 300)
     ps = progs.programs(seed * 104729 + int(pid[1:]), n, max_choices=10, extreme=pid in ("C05", "C06"),
-                        compound=pid in ("C03", "C04", "C07", "C08"))
+                        compound=pid in ("C03", "C04", "C07", "C08"), unfounded=pid in ("C03", "C07"),
+                        more_cycles=pid in ("C03", "C04"))
     col = Collector("%s:metamorphic" % pid,
                     "%d seeded programs of the bounded family; %s; each variant must give the same accept/reject decision, "
                     "the same reported instances and probabilities (1e-7) as the reference run; distinct = program "
@@ -320,6 +337,14 @@ def run(pid, tier, seed):
         col.case(r["src"], nontrivial=nontrivial)
         for label, outcome in r["variants"]:
             if same_result(_norm(base), _norm(outcome)):
+                if pid in ("C03", "C07") and base[0] == "ok" and set(base[1]) != set(outcome[1]):
+                    # these two properties also speak about the *set of reported query instances*: the runs agree on
+                    # all probabilities but name different instances with probability 0
+                    unf = "s(X) :- " in r["src"] and "s(Y)" in r["src"]
+                    col.violation("bounded:%s:%s:zero-probability-instances%s" % (pid.lower(), label.split("-")[0],
+                                                                                 "-of-unfounded-loop" if unf else ""),
+                                  "variant %s reports the instances %s, the reference %s (same probabilities), program:\n%s"
+                                  % (label, sorted(outcome[1]), sorted(base[1]), r["src"]), dict(program=r["src"], variant=label))
                 continue
             kind = label.split("-")[0].split(":")[0]
             if outcome[0] == "exc" and "InstallError" in outcome[1]:
